@@ -24,7 +24,8 @@ What is modelled, construct by construct
   were written (the rollback path of msetup.py:340-348).
 * A failing process loses its in-memory store: only files persist.  `coredata.save` copies the old file to
   `coredata.dat.prev` before writing and the rollback moves it back, so a rolled-back `core` is exactly the old
-  `core`; when there was no old file the new one is unlinked.
+  `core`; when there was no old file the new one is unlinked.  cmd_line.txt and intro-buildoptions.json are
+  snapshotted before they are rewritten and restored (or removed) by the same rollback.
 
 Not modelled: machine files and environment variables (empty), `project(default_options:)`/`subproject(default_options:)`
 (empty), `set_backend` (every `setup` command of the harness passes `--backend=none`, for which no backend option
@@ -170,13 +171,13 @@ def userOpts (d : Dir) (new : Dict) : Dict :=
 
 /-- the part of `_generate` after `intr.run()` on a first invocation: dump coredata, check for unused options,
 `write_cmd_line_file(self.options)`, introspection files, postconf scripts; on an exception the new coredata.dat is
-unlinked (there is no `.prev`) -/
+unlinked (there is no `.prev`) and cmd_line.txt / intro-buildoptions.json are put back to the content they had
+before (`option_records` in `_generate`), or removed -/
 def commitFirst (d : Dir) (selfOpts user : Dict) : Except Err Interp → Dir × Out
   | .error e => (d, .failed e false)
   | .ok r =>
     if !(checkUnused r.core.store user) then (d, .failed .meson false)     -- dumped, then unlinked again
-    else if r.late then
-      ({ d with cmdline := some selfOpts, intro := some r.core.store }, .failed .meson true)
+    else if r.late then (d, .failed .meson true)     -- everything written is taken back (see below)
     else
       ({ d with core := some r.core, cmdline := some selfOpts, intro := some r.core.store }, .ok r.msgs)
 
@@ -194,8 +195,7 @@ def commitReconf (d : Dir) (newD user : Dict) : Except Err Interp → Dir × Out
     if !(checkUnused r.core.store user) then (d, .failed .meson false)   -- dumped, rolled back from `.prev`
     else
       let cl := match d.cmdline with | some f => updateCmd f (dArgs newD) | none => newD
-      if r.late then
-        ({ d with cmdline := some cl, intro := some r.core.store }, .failed .meson true)
+      if r.late then (d, .failed .meson true)         -- coredata.dat.prev, cmd_line.txt and the intro file are put back
       else
         ({ d with core := some r.core, cmdline := some cl, intro := some r.core.store }, .ok r.msgs)
 
